@@ -3835,6 +3835,13 @@ def missing_context_manager(source: str) -> str:
 
             nodes.pop()
 
+        # The statements are moved into the with statement, also those with an ignore comment
+        if any(
+            core.has_ignore_comment(source, core.get_charnos(node, source))
+            for node in (asmt, *nodes)
+        ):
+            continue
+
         for i, node in enumerate(nodes):
             if core.match_template(
                 node,
